@@ -153,8 +153,11 @@ class Replayer:
             journal = [n for n in snap if n.endswith('-journal')]
             for n in journal:
                 snap.pop(n)                    # SQLite's rollback journal: judged by its own clause
+            sidecar = [n for n in snap if n.endswith(('-wal', '-shm'))]
+            for n in sidecar:
+                snap.pop(n)                    # companions of a WAL-mode genome file while a connection is open: own clause
             ob = dict(step=j, cmd=st['cmd'], outcome=outcome, detail=detail, unchanged=(snap == self.base0), listing=sorted(snap), pending=self.pending(),
-                      journal=bool(journal))
+                      journal=bool(journal), sidecar=bool(sidecar))
             problems = []
             if not ob['unchanged']:
                 changed = [n for n in set(snap) | set(self.base0) if snap.get(n) != self.base0.get(n)]
@@ -206,6 +209,18 @@ def prepare(tmp, seed):
             con.execute("INSERT INTO notes (body) VALUES ('not a gambit database')")
             con.commit(); con.close()
         envs.append(dict(name=name, db=d, files=files, good=good, foreign=foreign, kspec=tuple(w['kspec']), lenient=True))
+    # a genome file in WAL journal mode (the one mode recorded in the file itself), cleanly checkpointed
+    d = os.path.join(tmp, 'db_wal')
+    shutil.copytree(tiny, d)
+    con = sqlite3.connect(os.path.join(d, 'ref.gdb'))
+    con.execute('PRAGMA journal_mode=WAL')
+    con.execute('CREATE TABLE IF NOT EXISTS _touch (x)'); con.execute('DROP TABLE _touch'); con.commit()
+    con.execute('PRAGMA wal_checkpoint(TRUNCATE)')
+    con.close()
+    for f in os.listdir(d):
+        if f.endswith(('-wal', '-shm')):
+            os.remove(os.path.join(d, f))
+    envs.append(dict(name='wal-mode', db=d, files=files, good=good, foreign=foreign, kspec=tuple(w['kspec']), extra_env=True))
     import glob
     bq = sorted(glob.glob(os.path.join(BUNDLED, 'queries', 'genomes', '*.fasta')))[:4]
     if os.path.exists(os.path.join(BUNDLED, 'ref-genomes.gdb')) and len(bq) >= 3:
@@ -257,12 +272,12 @@ def run(ctx):
     try:
         envs = prepare(tmp, ctx.seed)
         jobs = []
-        sound = [e for e in envs if not e.get('lenient')]
+        sound = [e for e in envs if not e.get('lenient') and not e.get('extra_env')]
         for i, h in enumerate(hists):
             jobs.append((i, h, sound[i % len(sound)]))
         # damaged / foreign genome files: the hand-picked histories and a few generated ones on each
         for e in envs:
-            if e.get('lenient'):
+            if e.get('lenient') or e.get('extra_env'):
                 for h in hists[-len(must):] + hists[:4]:
                     jobs.append((len(jobs), h, e))
 
@@ -278,7 +293,7 @@ def run(ctx):
         with ThreadPoolExecutor(10) as ex:
             all_obs = list(ex.map(one, jobs))
         nsteps = sum(len(o) for o in all_obs)
-        recs = [dict(db=env['name'], lenient=bool(env.get('lenient')), steps=[dict(cmd=o['cmd'], outcome=o['outcome'], pending=o['pending'], unchanged=o['unchanged'], journal=o['journal']) for o in obs])
+        recs = [dict(db=env['name'], lenient=bool(env.get('lenient')), steps=[dict(cmd=o['cmd'], outcome=o['outcome'], pending=o['pending'], unchanged=o['unchanged'], journal=o['journal'], sidecar=o['sidecar']) for o in obs])
                 for (i, h, env), obs in zip(jobs, all_obs)]
         n_j, bad = tlc.judge('Judge_C18', recs)
         for i, why in bad:
